@@ -16,6 +16,7 @@ Side conditions
   function}` as a unary operation / operand.
 -/
 import Verif.Lemmas.EvalCorrect
+import Verif.Props.C01Lit
 
 namespace Verif
 open Expr
